@@ -13,9 +13,22 @@ SHAPES = {
     "after-blank-and-comment": "def f(x):\n    y = x\n\n    # a comment\n\n    return OUT('v{k}', y)\n",
     "long-body": "def f(x):\n" + "".join(f"    a{i} = {i}\n" for i in range(60)) + "    return OUT('v{k}', x)\n",
     "implicit-concat": "def f(x):\n    return OUT(x=x, t=(\n        'v'\n        '{k}'\n    ))\n",
+    # only a NAME the function refers to changes (same bytecode, same constants)
+    "global-name": "def f(x):\n    return OUT(TAG_V{k}, x)\n",
+    "attribute-name": "def f(x):\n    return OUT(TAGS.v{k}, x)\n",
     "first-line-only": "def f(x, t='v{k}'):\n    z = (\n        x\n    )\n    return OUT(t, z)\n",
 }
 NAMES = sorted(SHAPES)
+
+
+TAG_GLOBALS_SRC = "TAG_V1, TAG_V2, TAG_V3 = 'v1', 'v2', 'v3'\n\n\nclass TAGS:\n    v1, v2, v3 = 'v1', 'v2', 'v3'\n\n\n"
+
+
+class TAGS:
+    v1, v2, v3 = "v1", "v2", "v3"
+
+
+TAG_GLOBALS = dict(TAG_V1="v1", TAG_V2="v2", TAG_V3="v3", TAGS=TAGS)
 
 
 def norm(t):
@@ -31,5 +44,5 @@ def text(shape, k):
 
 
 # source of an OUT helper for the fresh-process sessions (appends to a log file)
-OUT_SRC = ("import json, os\n\n\ndef OUT(t, x):\n    if isinstance(t, tuple):\n        t = t[-1]\n    if isinstance(t, dict):\n        t = t['tag']\n    t = t.strip()\n"
+OUT_SRC = ("import json, os\n\n\n" + TAG_GLOBALS_SRC + "def OUT(t, x):\n    if isinstance(t, tuple):\n        t = t[-1]\n    if isinstance(t, dict):\n        t = t['tag']\n    t = t.strip()\n"
            "    fd = os.open({log!r}, os.O_WRONLY | os.O_APPEND)\n    os.write(fd, (json.dumps([t, x]) + '\\n').encode())\n    os.close(fd)\n    return (t, x)\n\n\n")
